@@ -51,6 +51,8 @@ def check(P, rep):
         return f is not None and core(f.get('from')) == p
 
     def from_is(g, e, p):
+        if e.kind == 'xcall' and e.method in ('transfer_from', 'burn_from') and len(e.args) > 1 and core(e.args[1]) == p:
+            return True       # pulling from p through an allowance is still spending p's funds in THIS call
         return e.kind == 'xcall' and e.method in ('transfer', 'burn') and e.args and core(e.args[0]) == p
 
     # --- token ---
@@ -123,8 +125,10 @@ def check(P, rep):
                     subj = a0
             if e.kind == 'xcall' and e.method in ('transfer_from', 'burn_from') and len(e.args) > 1:
                 a1 = core(e.args[1])
-                if a1 in params and core(e.args[0]) != ('self',):
-                    subj = core(e.args[0]) if core(e.args[0]) in params else None
+                if a1 in params:
+                    # a foreign token pulled from a named address through an allowance: the named owner must have authorised this
+                    # call (an allowance granted earlier, to this contract or to another parameter, is not an authorisation of it)
+                    subj = a1
             if e.kind == 'sw' and key_variant(e.key)[0] == 'Balance' and is_debit(e.val):
                 k0 = core(key_variant(e.key)[1][0])
                 if k0 in params:
